@@ -6,7 +6,7 @@ if [ -n "$(git -C /repo status --porcelain)" ]; then echo "/repo not clean"; exi
 trap 'git -C /repo checkout -- . ; git -C /repo clean -fdq -- src notebooks' EXIT
 git -C /repo apply $sd/patch.diff || { echo "patch does not apply"; exit 3; }
 t=$(cd /repo && /venv/bin/python -m pytest -q -p no:cacheprovider 2>&1 | tail -1)
-PYTHONPATH=/repo/src timeout 300 /venv/bin/python $sd/demo.py > /dev/null 2>&1; d=$?
+REPO_ROOT=/repo PYTHONPATH=/repo/src timeout 300 /venv/bin/python $sd/demo.py > /dev/null 2>&1; d=$?
 scr=$(mktemp -d /tmp/seedconf_XXXX)
 res=""
 for p in "$@"; do
